@@ -323,6 +323,16 @@ func (d *Decls) fun(name string, args []string, ret string) string {
 	return q
 }
 
+// axiom adds a closed fact that holds in every state of the unit (table contents, sentinel properties).
+func (d *Decls) axiom(t string) {
+	a := "(assert " + t + ")"
+	if d.funSet[a] {
+		return
+	}
+	d.funSet[a] = true
+	d.axioms = append(d.axioms, a)
+}
+
 func (d *Decls) text() string {
 	return strings.Join(d.list, "\n") + "\n" + strings.Join(d.funs, "\n") + "\n" + strings.Join(d.axioms, "\n") + "\n"
 }
@@ -402,4 +412,43 @@ func sortedKeys(m map[string]string) []string {
 	}
 	sort.Strings(ks)
 	return ks
+}
+
+// errAxioms: for every error value e created by fmt.Errorf/errors.New in this unit (constants err!N):
+// errors.Is(e,t) <=> e==t or errors.Is(wraps(e),t); errors.As(e,T) <=> errors.As(wraps(e),T) for the network types.
+func (d *Decls) errAxioms() string {
+	var b strings.Builder
+	_, hasWraps := d.set["errwraps"]
+	if !hasWraps {
+		return ""
+	}
+	var errs []string
+	for name := range d.set {
+		if strings.HasPrefix(name, "err!") {
+			errs = append(errs, name)
+		}
+	}
+	sort.Strings(errs)
+	var asFns []string
+	for name := range d.set {
+		n := strings.Trim(name, "|")
+		if strings.HasPrefix(n, "fn!errors.As!") {
+			asFns = append(asFns, name)
+		}
+	}
+	sort.Strings(asFns)
+	_, hasIs := d.set["fn!errors.Is"]
+	for _, e := range errs {
+		if hasIs {
+			b.WriteString(fmt.Sprintf("(assert (forall ((t Int)) (! (= (fn!errors.Is %s t) (or (= %s t) (and (distinct (errwraps %s) 0) (fn!errors.Is (errwraps %s) t)))) :pattern ((fn!errors.Is %s t)))))\n", e, e, e, e, e))
+		}
+		for _, f := range asFns {
+			vf := strings.Replace(f, "fn!errors.As!", "fn!errors.AsVal!", 1)
+			b.WriteString(fmt.Sprintf("(assert (= (%s %s) (and (distinct (errwraps %s) 0) (%s (errwraps %s)))))\n", f, e, e, f, e))
+			if _, ok := d.set[vf]; ok {
+				b.WriteString(fmt.Sprintf("(assert (=> (%s %s) (= (%s %s) (%s (errwraps %s)))))\n", f, e, vf, e, vf, e))
+			}
+		}
+	}
+	return b.String()
 }
